@@ -34,7 +34,10 @@ def classify(cmd_id, text, stderr, timed_out=False):
     return None
 
 
-DEEP_TERM = re.compile(rb"(?:-\(?|\(|\d+\s*[-+*]\s*\(|\s){100,}")
+# (atomic group: `-(` can be read as one item or as `-` then `(`; with an ordinary group a text with 50..99 such pairs
+# - not in the class - made the search backtrack through 2^50 readings, and the worker that called classify() after a
+# watchdog timeout on a loaded machine never returned: the check hung)
+DEEP_TERM = re.compile(rb"(?>-\(?|\(|\d+\s*[-+*]\s*\(|\s){100,}")
 
 
 def classify_inprocess(kind, text):
